@@ -617,4 +617,4 @@ def signature(spec: dict[str, Any]) -> str:
         parts.append(f"{n['op']}({','.join(args)}){extra}")
     if not parts:
         parts = ["<inputs-only>"]
-    return ";".join(parts)[:200]
+    return ";".join(parts)[:400]
